@@ -19,7 +19,9 @@ func quote(s string) string {
 	if s == "" {
 		return ""
 	}
-	return `"` + s + `"`
+	// the text is emitted as a QSTRING token: a backslash or a double quote
+	// inside it must be escaped or the emitted Sysl does not parse
+	return `"` + strings.NewReplacer(`\`, `\\`, `"`, `\"`).Replace(s) + `"`
 }
 
 func isBuiltInType(item Type) bool {
